@@ -153,7 +153,13 @@ fn plain_set() -> InstructionSet {
 fn state_with_bindings(n: usize) -> PushState {
     let mut st = PushState::new();
     for k in 0..n {
-        st.name_bindings.insert(format!("bound{}", k), Item::int(k as i32));
+        // values of several kinds; a name bound to another (unbound) name must not be followed
+        let v = match k % 4 {
+            1 => Item::name(format!("alias-target{}", k)),
+            2 => Item::list(vec![Item::name("inner".to_string()), Item::int(1)]),
+            _ => Item::int(k as i32),
+        };
+        st.name_bindings.insert(format!("bound{}", k), v);
     }
     st
 }
@@ -646,6 +652,9 @@ pub fn execute(sc: &EntropySc, full_list: &[String]) -> Executed {
                 let res = stream(sc, *k, 64 * lim as u64 + 256, 0, "C12", "CODE.RAND", &mut stats, || {
                     let mut st = state_with_bindings(*bindings);
                     st.configuration.max_points_in_random_expressions = *max_points_cfg;
+                    // bystanders below the operand: they must stay and must not influence the size
+                    st.int_stack.push(40);
+                    st.int_stack.push(41);
                     st.int_stack.push(*operand);
                     st.exec_stack.push(Item::instruction("CODE.RAND".into()));
                     PushInterpreter::step(&mut st, &mut iset, &cache);
@@ -654,8 +663,8 @@ pub fn execute(sc: &EntropySc, full_list: &[String]) -> Executed {
                 match res {
                     Err(x) => push(&mut vs, x),
                     Ok((item, ints, codes)) => {
-                        if ints != 0 {
-                            push(&mut vs, v("C12", "operands", "CODE.RAND", "the size operand was not consumed".into()));
+                        if ints != 2 {
+                            push(&mut vs, v("C12", "operands", "CODE.RAND", format!("INTEGER stack depth {} after the instruction (2 bystanders expected: exactly the size operand is consumed)", ints)));
                         }
                         if codes > 1 {
                             push(&mut vs, v("C12", "operands", "CODE.RAND", format!("{} items pushed", codes)));
